@@ -18,7 +18,7 @@ let parse_state (f : string array) : receiver =
   let i = ref 0 in
   let nx () = let v = f.(!i) in incr i; v in
   let t () = tok (nx ()) and l () = toks (nx ()) in
-  let mavg () = let w = l () in let a = t () in let b = t () in { ma_window = w; ma_inv_len = a; ma_sum = b } in
+  let mavg () = let w = l () in let a = t () in let b = t () in let c = t () in { ma_window = w; ma_inv_len = a; ma_sum = b; ma_since = c } in
   let ff = mavg () in let fb = mavg () in
   let ag = let a = t () in let b = t () in let c = t () in let d = t () in let e = t () in
     { ag_bandwidth = a; ag_min = b; ag_max = c; ag_locked = d; ag_gain = e } in
@@ -45,7 +45,7 @@ let parse_state (f : string array) : receiver =
     x_transport = tr; x_queue = q; x_ted_clock = tc; x_until_ted = ut; x_force_eom = fe }
 
 let show_state (x : receiver) : string =
-  let mavg m = [ stoks m.ma_window; stok m.ma_inv_len; stok m.ma_sum ] in
+  let mavg m = [ stoks m.ma_window; stok m.ma_inv_len; stok m.ma_sum; stok m.ma_since ] in
   String.concat " " (
     mavg x.x_dc_ff @ mavg x.x_dc_fb
     @ [ stok x.x_agc.ag_bandwidth; stok x.x_agc.ag_min; stok x.x_agc.ag_max; stok x.x_agc.ag_locked; stok x.x_agc.ag_gain ]
@@ -62,17 +62,17 @@ let show_state (x : receiver) : string =
     @ [ stok x.x_bw_unlocked; stok x.x_bw_locked; stok x.x_rate; stok x.x_sample_counter; stok x.x_link; stok x.x_transport;
         stok x.x_queue; stok x.x_ted_clock; stok x.x_until_ted; stok x.x_force_eom ])
 
-(* resetshape <11 constant tokens> <initial_gain> <alpha> <beta> <training tokens, comma list or -> <60 state fields> *)
+(* resetshape <11 constant tokens> <initial_gain> <alpha> <beta> <training tokens, comma list or -> <62 state fields> *)
 let handle_c18 (toks_ : string list) : string =
   match toks_ with
   | "resetshape" :: rest ->
     let a = Array.of_list rest in
-    if Array.length a <> 11 + 4 + 60 then "DRIVER-ERROR resetshape arity " ^ string_of_int (Array.length a)
+    if Array.length a <> 11 + 4 + 62 then "DRIVER-ERROR resetshape arity " ^ string_of_int (Array.length a)
     else begin
       let c k = tok a.(k) in
       let ig = tok a.(11) and al = tok a.(12) and be = tok a.(13) in
       let training = toks a.(14) in
-      let x = parse_state (Array.sub a 15 60) in
+      let x = parse_state (Array.sub a 15 62) in
       let initial_gain _ _ = ig and alphabeta _ = (al, be) in
       let is_training m = List.mem m training in
       let r = receiver_reset (c 0) (c 1) (c 2) (c 3) (c 4) (c 5) (c 6) (c 7) (c 8) (c 9) (c 10)
